@@ -12,7 +12,7 @@ ID = "C07"
 LEVEL = "exploration"
 BUDGET = {"quick": 55, "thorough": 900}
 QUICK_CASES = 3000  # generator items in the quick tier (fixed amount of work; BUDGET is then only a safety cap)
-FLOOR = {"quick": 20000, "thorough": 4000}
+FLOOR = {"quick": 20000, "thorough": 20000}  # conclusive cases below which a run is inconclusive (the thorough tier is time-budgeted: same floor)
 TIMEOUT = 90
 REQUIRED_OBS = ["matcher_queries", "guarded_cases", "occurrences", "accepted", "rejected_time_active", "rejected_state_active", "rejected_hold_off", "direct_calls", "transient_watchers", "state_hold_guarded_cases", "two_triggers_of_one_type_cases"]
 RULE = (
